@@ -1341,4 +1341,14 @@ theorem scalarMult_shape {x y z : Tensor α} {rs : List Nat} (h : resultShape x 
 
 end outshape
 
+theorem flatMap_singletons (l : List ℕ) : List.flatMap (fun i => [[i]]) l = l.map (fun i => [i]) := by
+  induction l with
+  | nil => rfl
+  | cons x l ih => simp [List.flatMap_cons, ih]
+
+theorem range_map_sum (F : ℕ → ℂ) (n : ℕ) : ((List.range n).map F).sum = ∑ i : Fin n, F i.val := by
+  induction n with
+  | zero => simp
+  | succ n ih => rw [List.range_succ, List.map_append, List.sum_append, ih, Fin.sum_univ_castSucc]; simp
+
 end QV.Cplx
